@@ -39,7 +39,7 @@ class CallMixin:
             if name in ("old", "implies", "result", "use", "hint", "iff", "fresh_ref", "subset", "union", "setminus", "mapdom",
                         "singleton", "setadd", "setdel", "mapset", "mapdel", "seqlen", "issub", "isinst", "typeof", "ite", "mapget",
                         "emptyset", "length", "inter", "exc_is", "some", "unopt", "isnone", "const", "cast", "elems", "distinct",
-                        "str_init", "str_last", "str_first", "has", "aslist", "inside", "confined"):
+                        "str_init", "str_last", "str_first", "has", "aslist", "inside", "confined", "rec_has", "rec_get", "rec_set"):
                 return Callable_("dslfn", name)
         mod = env.get("__mod__")
         if mod is not None:
@@ -562,6 +562,17 @@ class CallMixin:
                 raise Unsupported("sorted(%r)" % x.ty, node)
         elif name == "bool":
             yield st, mk_bool(truth(args[0]))
+        elif name == "getattr":
+            obj, nm = args[0], z3.simplify(args[1].t)
+            if not (z3.is_string_value(nm) and isinstance(obj, Val) and isinstance(obj.ty, TRef)):
+                raise Unsupported("getattr with a computed name", node)
+            if self.field_type(obj.ty.cls, nm.as_string()) is not None:
+                self.note_assumption("getattr(x, %r, default): the attribute is modelled as a declared field (absent = its default)" % nm.as_string())
+                yield st, self.heap_read(st, obj, nm.as_string())
+            elif len(args) > 2:
+                yield st, args[2]
+            else:
+                yield st, Raise(ExcVal("AttributeError"))
         elif name == "type":
             (x,) = args
             yield st, self.type_of(x, node)
@@ -756,6 +767,8 @@ class CallMixin:
             if fname not in ty.fields:
                 raise Unsupported("record %s has no declared field %s" % (ty.rname, fname), node)
             lo, hi, ft = ty.field_slice(fname)
+            if isinstance(dflt, PyDict) and not dflt.items and isinstance(ft, TMap):
+                dflt = empty_map(ft.key, ft.val)
             for st1, ok in self.branch(st, obj.terms[lo]):
                 yield st1, (Val(ft, obj.terms[lo + 1:hi]) if ok else dflt)
             return
